@@ -198,6 +198,384 @@ fn op_real(a: &Argument) -> String {
     }
 }
 
+fn p_class(r: &Result<(&[u8], ParsedMessage), DltParseError>) -> String {
+    match r {
+        Ok((_, ParsedMessage::Item(_))) => "ITEM".into(),
+        Ok((_, ParsedMessage::FilteredOut(n))) => format!("FILTERED:{}", n),
+        Ok((_, ParsedMessage::Invalid)) => "INVALID".into(),
+        Err(DltParseError::IncompleteParse { .. }) => "INCOMPLETE".into(),
+        Err(DltParseError::ParsingHickup(_)) => "HICKUP".into(),
+        Err(DltParseError::Unrecoverable(_)) => "UNRECOVERABLE".into(),
+    }
+}
+
+/// bit-for-bit equality of messages (floats by bit pattern): equality of the canonical print
+pub fn same_msg(a: &Message, b: &Message) -> bool {
+    p_message(a) == p_message(b)
+}
+
+fn op_rt(m: &Message, sfx: &[u8]) -> String {
+    let r = guard(|| {
+        let mut input = m.as_bytes();
+        input.extend_from_slice(sfx);
+        let r = dlt_message(&input, None, m.storage_header.is_some());
+        match &r {
+            Ok((rest, ParsedMessage::Item(m2))) if same_msg(m, m2) && *rest == sfx => {
+                format!("rt=1 rest={}", rest.len())
+            }
+            _ => format!("rt=0 {}", p_parse_result(&r)),
+        }
+    });
+    match r {
+        Some(s) => {
+            let ok = s.starts_with("rt=1");
+            format!("{}{}", s, oracle(ok, "does not parse back to the same message and suffix"))
+        }
+        None => format!("PANIC{}", oracle(false, "panic")),
+    }
+}
+
+fn use_message(m: &Message) -> (String, bool) {
+    let reser = guard(|| {
+        let _ = m.as_bytes();
+        let _ = m.byte_len();
+        if let PayloadContent::Verbose(args) = &m.payload {
+            for a in args {
+                let _ = a.len();
+                let _ = a.as_bytes::<LittleEndian>();
+                let _ = a.as_bytes::<BigEndian>();
+            }
+        }
+    })
+    .is_some();
+    let valid = guard(|| match &m.payload {
+        PayloadContent::Verbose(args) => args.iter().all(|a| a.valid()),
+        _ => true,
+    });
+    (
+        format!(
+            "reser={} valid={}",
+            if reser { "ok" } else { "PANIC" },
+            match valid {
+                Some(v) => p_bool(v),
+                None => "PANIC",
+            }
+        ),
+        reser && valid == Some(true),
+    )
+}
+
+fn op_nopanic(w: bool, f: Option<dlt_core::filtering::DltFilterConfig>, bs: &[u8]) -> String {
+    let pf = processed(&f, bs.len() % 2 == 0);
+    let r = guard(|| {
+        let r = dlt_message(bs, pf.as_ref(), w);
+        match &r {
+            Ok((_, ParsedMessage::Item(m))) => {
+                let (s, ok) = use_message(m);
+                (format!("{} {}", p_class(&r), s), ok)
+            }
+            _ => (format!("{} reser=na valid=na", p_class(&r)), true),
+        }
+    });
+    match r {
+        Some((s, ok)) => format!("{}{}", s, oracle(ok, "returned message cannot be used")),
+        None => format!("PANIC reser=na valid=na{}", oracle(false, "parser panics")),
+    }
+}
+
+fn p_consume(r: &Result<(&[u8], Option<u64>), DltParseError>) -> String {
+    match r {
+        Ok((rest, None)) => format!("OK none rest={}", rest.len()),
+        Ok((rest, Some(c))) => format!("OK some {} rest={}", c, rest.len()),
+        Err(DltParseError::IncompleteParse { .. }) => "ERR INCOMPLETE".into(),
+        Err(DltParseError::ParsingHickup(_)) => "ERR HICKUP".into(),
+        Err(DltParseError::Unrecoverable(_)) => "ERR UNRECOVERABLE".into(),
+    }
+}
+
+fn no_panic(r: Option<String>) -> String {
+    match r {
+        Some(s) => s,
+        None => format!("PANIC{}", oracle(false, "panic")),
+    }
+}
+
+fn op_consume(bs: &[u8]) -> String {
+    no_panic(guard(|| p_consume(&dlt_consume_msg(bs))))
+}
+
+fn op_skipsh(bs: &[u8]) -> String {
+    no_panic(guard(|| match skip_storage_header(bs) {
+        Ok((rest, n)) => format!("OK {} rest={}", n, rest.len()),
+        Err(DltParseError::IncompleteParse { .. }) => "ERR INCOMPLETE".into(),
+        Err(DltParseError::ParsingHickup(_)) => "ERR HICKUP".into(),
+        Err(DltParseError::Unrecoverable(_)) => "ERR UNRECOVERABLE".into(),
+    }))
+}
+
+fn op_fwd(bs: &[u8]) -> String {
+    no_panic(guard(|| match forward_to_next_storage_header(bs) {
+        None => "none".to_string(),
+        Some((n, rest)) => {
+            let ok = (n as usize) <= bs.len() && rest == &bs[n as usize..];
+            format!("some {} rest={}{}", n, rest.len(), oracle(ok, "rest is not the input from the offset on"))
+        }
+    }))
+}
+
+fn hint_ok(missing: usize, hint: &Option<std::num::NonZeroUsize>) -> bool {
+    match hint {
+        None => true,
+        Some(n) => n.get() >= 1 && n.get() <= missing,
+    }
+}
+
+fn fnv(h: u64, x: u64) -> u64 {
+    (h ^ x).wrapping_mul(1099511628211)
+}
+
+fn op_cutall(m: &Message) -> String {
+    let r = guard(|| {
+        let bs = m.as_bytes();
+        let w = m.storage_header.is_some();
+        let n = bs.len();
+        let mut bad: Vec<String> = vec![];
+        let mut nbad = 0usize;
+        let mut h: u64 = 14695981039346656037;
+        for k in 0..n {
+            let pre = &bs[..k];
+            let r = guard(|| dlt_message(pre, None, w));
+            let (ok_msg, cls, hv) = match &r {
+                Some(r @ Err(DltParseError::IncompleteParse { needed })) => (
+                    hint_ok(n - k, needed),
+                    p_class(r),
+                    needed.map(|x| x.get() as u64 + 1).unwrap_or(0),
+                ),
+                Some(r) => (false, p_class(r), 999999),
+                None => (false, "PANIC".to_string(), 999999),
+            };
+            h = fnv(h, hv);
+            let c = guard(|| dlt_consume_msg(pre));
+            let (ok_cons, cstr) = match &c {
+                None => (false, "PANIC".to_string()),
+                Some(c) => {
+                    let s = p_consume(c);
+                    let ok = if !w {
+                        true
+                    } else if k == 0 {
+                        matches!(c, Ok((_, None)))
+                    } else {
+                        match c {
+                            Err(DltParseError::IncompleteParse { needed }) => hint_ok(n - k, needed),
+                            _ => false,
+                        }
+                    };
+                    (ok, s)
+                }
+            };
+            if !(ok_msg && ok_cons) {
+                nbad += 1;
+                if bad.len() < 3 {
+                    bad.push(format!("{}:{}:{}", k, cls, cstr).replace(' ', "_"));
+                }
+            }
+        }
+        (
+            format!("len={} bad={} [{}]", n, nbad, bad.join(", ")),
+            nbad == 0,
+            h,
+        )
+    });
+    match r {
+        Some((s, ok, h)) => format!("{}{} @@ fine={}", s, oracle(ok, "a proper prefix is not reported incomplete with a safe hint"), h),
+        None => format!("PANIC{}", oracle(false, "panic")),
+    }
+}
+
+fn op_stable(w: bool, bs: &[u8]) -> String {
+    let r = guard(|| match dlt_message(bs, None, w) {
+        Ok((_, ParsedMessage::Item(m))) => {
+            let b2 = match guard(|| m.as_bytes()) {
+                Some(b) => b,
+                None => return ("item PANIC".to_string(), false),
+            };
+            let declared = (if w { 16 } else { 0 }) + m.header.overall_length() as usize;
+            if b2.len() != declared {
+                return ("item lenmatch=0".to_string(), true);
+            }
+            match dlt_message(&b2, None, w) {
+                Ok((rest, ParsedMessage::Item(m2))) => {
+                    let st = same_msg(&m, &m2) && rest.is_empty() && m2.as_bytes() == b2;
+                    (format!("item lenmatch=1 stable={}", p_bool(st)), st)
+                }
+                _ => ("item lenmatch=1 stable=0".to_string(), false),
+            }
+        }
+        _ => ("na".to_string(), true),
+    });
+    match r {
+        Some((s, ok)) => format!("{}{}", s, oracle(ok, "re-serialisation does not parse back to the same message")),
+        None => format!("PANIC{}", oracle(false, "panic")),
+    }
+}
+
+fn op_arglen(a: &Argument) -> String {
+    let r = guard(|| {
+        let le = a.as_bytes::<LittleEndian>().len();
+        let be = a.as_bytes::<BigEndian>().len();
+        (a.len(), le, be)
+    });
+    let valid = a.valid();
+    match r {
+        Some((l, le, be)) => format!(
+            "len={} le={} be={} valid={} ok{}",
+            l,
+            le,
+            be,
+            p_bool(valid),
+            oracle(l == le && l == be, "reported length differs from the serialised length")
+        ),
+        None => format!(
+            "len={} le=? be=? valid={} PANIC{}",
+            guard(|| a.len()).map(|x| x.to_string()).unwrap_or("?".into()),
+            p_bool(valid),
+            oracle(false, "panic")
+        ),
+    }
+}
+
+fn message_config(t: &mut Toks) -> R<MessageConfig> {
+    let version: u8 = t.num()?;
+    let counter: u8 = t.num()?;
+    let endianness = t.endian()?;
+    let ecu_id = t.opt(|t| t.string())?;
+    let session_id = t.opt(|t| t.num::<u32>())?;
+    let timestamp = t.opt(|t| t.num::<u32>())?;
+    let payload = t.payload()?;
+    let extended_header_info = t.opt(|t| {
+        let message_type = t.message_type()?;
+        let app_id = t.string()?;
+        let context_id = t.string()?;
+        Ok(ExtendedHeaderConfig {
+            message_type,
+            app_id,
+            context_id,
+        })
+    })?;
+    Ok(MessageConfig {
+        version,
+        counter,
+        endianness,
+        ecu_id,
+        session_id,
+        timestamp,
+        payload,
+        extended_header_info,
+    })
+}
+
+pub fn p_message_config(c: &MessageConfig) -> String {
+    format!(
+        "{} {} {} {} {} {} {} {}",
+        c.version,
+        c.counter,
+        p_endian(c.endianness),
+        p_opt(&c.ecu_id, p_str),
+        p_opt(&c.session_id, |v| v.to_string()),
+        p_opt(&c.timestamp, |v| v.to_string()),
+        p_payload(&c.payload),
+        p_opt(&c.extended_header_info, |e| format!(
+            "{} {} {}",
+            p_message_type(&e.message_type),
+            p_str(&e.app_id),
+            p_str(&e.context_id)
+        ))
+    )
+}
+
+fn op_new(c: MessageConfig, sh: Option<StorageHeader>) -> String {
+    let r = guard(|| {
+        let m = Message::new(c, sh);
+        let e = m.header.endianness;
+        let pl = match e {
+            Endianness::Big => payload_bytes_be(&m),
+            Endianness::Little => payload_bytes_le(&m),
+        };
+        let plen_ok = m.header.payload_length as usize == pl;
+        let mut no_sh = m.clone();
+        no_sh.storage_header = None;
+        let blen_ok = m.byte_len() as usize == no_sh.as_bytes().len();
+        let bytes = m.as_bytes();
+        let back = match dlt_message(&bytes, None, m.storage_header.is_some()) {
+            Ok((rest, ParsedMessage::Item(m2))) => same_msg(&m, &m2) && rest.is_empty(),
+            _ => false,
+        };
+        (
+            format!(
+                "{} plen_ok={} blen_ok={} rt={}",
+                p_message(&m),
+                p_bool(plen_ok),
+                p_bool(blen_ok),
+                p_bool(back)
+            ),
+            plen_ok && blen_ok && back,
+        )
+    });
+    match r {
+        Some((s, ok)) => format!("{}{}", s, oracle(ok, "built message is not self-consistent")),
+        None => format!("PANIC{}", oracle(false, "panic")),
+    }
+}
+
+/// serialised payload length = whole message minus headers (the payload writer is crate-private)
+fn payload_bytes_le(m: &Message) -> usize {
+    payload_len_via_bytes(m)
+}
+fn payload_bytes_be(m: &Message) -> usize {
+    payload_len_via_bytes(m)
+}
+fn payload_len_via_bytes(m: &Message) -> usize {
+    let mut no_sh = m.clone();
+    no_sh.storage_header = None;
+    let hl = 4
+        + if m.header.ecu_id.is_some() { 4 } else { 0 }
+        + if m.header.session_id.is_some() { 4 } else { 0 }
+        + if m.header.timestamp.is_some() { 4 } else { 0 }
+        + if m.extended_header.is_some() { 10 } else { 0 };
+    no_sh.as_bytes().len() - hl
+}
+
+fn op_addsh(m: Message, s: u32, us: u32) -> String {
+    let r = guard(|| {
+        let mut no_sh = m.clone();
+        no_sh.storage_header = None;
+        let base = no_sh.as_bytes();
+        let ecu = m.header.ecu_id.clone().unwrap_or_else(|| "ECU".to_string());
+        let m2 = m.add_storage_header(Some(DltTimeStamp {
+            seconds: s,
+            microseconds: us,
+        }));
+        let b = m2.as_bytes();
+        // expected: 16 bytes storage header in front of the unchanged message
+        let mut exp = vec![0x44u8, 0x4c, 0x54, 0x01];
+        exp.extend_from_slice(&s.to_le_bytes());
+        exp.extend_from_slice(&us.to_le_bytes());
+        let mut id = ecu.into_bytes();
+        while id.len() < 4 {
+            id.push(0);
+        }
+        let id_len = id.len();
+        exp.extend_from_slice(&id);
+        exp.extend_from_slice(&base);
+        let ok = b == exp && (id_len != 4 || b.len() == base.len() + 16);
+        (hex(&b), ok)
+    });
+    match r {
+        Some((s, ok)) => format!("{}{}", s, oracle(ok, "storage header is not a 16 byte prefix with time and ecu id")),
+        None => format!("PANIC{}", oracle(false, "panic")),
+    }
+}
+
 pub fn dispatch(op: &str, t: &mut Toks) -> R<String> {
     let out = match op {
         "FROMMS" => {
@@ -223,6 +601,101 @@ pub fn dispatch(op: &str, t: &mut Toks) -> R<String> {
             let f = t.opt(|t| t.filter())?;
             let bs = t.bytes()?;
             op_parse(w, f, &bs)
+        }
+        "RT" => {
+            let m = t.message()?;
+            let sfx = t.bytes()?;
+            op_rt(&m, &sfx)
+        }
+        "NOPANIC" => {
+            let w = t.boolean()?;
+            let f = t.opt(|t| t.filter())?;
+            let bs = t.bytes()?;
+            op_nopanic(w, f, &bs)
+        }
+        "CONSUME" => op_consume(&t.bytes()?),
+        "CONS" => {
+            let w = t.boolean()?;
+            let f = t.opt(|t| t.filter())?;
+            let bs = t.bytes()?;
+            let pf = processed(&f, bs.len() % 2 == 0);
+            match guard(|| match dlt_message(&bs, pf.as_ref(), w) {
+                Ok((rest, pm)) => {
+                    // the remainder must be a suffix of the input (same allocation, ends at its end)
+                    let is_suffix = rest.len() <= bs.len()
+                        && rest.as_ptr() as usize == bs.as_ptr() as usize + (bs.len() - rest.len());
+                    let kind = match pm {
+                        ParsedMessage::Item(_) => "item".to_string(),
+                        ParsedMessage::FilteredOut(n) => format!("filtered:{}", n),
+                        ParsedMessage::Invalid => "invalid".to_string(),
+                    };
+                    format!(
+                        "OK rest={} kind={}{}",
+                        rest.len(),
+                        kind,
+                        oracle(is_suffix || rest.is_empty(), "remainder is not a suffix of the input")
+                    )
+                }
+                Err(_) => "ERR".to_string(),
+            }) {
+                Some(s) => s,
+                None => format!("PANIC{}", oracle(false, "panic")),
+            }
+        }
+        "NVA" => {
+            let e = t.endian()?;
+            let n: usize = t.num()?;
+            let mut tis = Vec::with_capacity(n);
+            for _ in 0..n {
+                tis.push(t.type_info()?);
+            }
+            let d = t.bytes()?;
+            match guard(|| match construct_arguments(e, &tis, &d) {
+                Ok(args) => {
+                    let mut s = format!("OK {}", args.len());
+                    for a in &args {
+                        s.push(' ');
+                        s.push_str(&p_argument(a));
+                    }
+                    s
+                }
+                Err(_) => "ERR".to_string(),
+            }) {
+                Some(s) => s,
+                None => format!("PANIC{}", oracle(false, "panic")),
+            }
+        }
+        "SKIPSH" => op_skipsh(&t.bytes()?),
+        "FWD" => op_fwd(&t.bytes()?),
+        "CUTALL" => op_cutall(&t.message()?),
+        "STABLE" => {
+            let w = t.boolean()?;
+            let bs = t.bytes()?;
+            op_stable(w, &bs)
+        }
+        "ARGLEN" => op_arglen(&t.argument()?),
+        "VALID" => {
+            let a = t.argument()?;
+            let v = a.valid();
+            let matches = match (&a.type_info.kind, &a.value) {
+                (TypeInfoKind::Bool, Value::Bool(_)) => true,
+                (TypeInfoKind::Float(FloatWidth::Width32), Value::F32(_)) => true,
+                (TypeInfoKind::Float(FloatWidth::Width64), Value::F64(_)) => true,
+                (TypeInfoKind::Bool, _) | (TypeInfoKind::Float(_), _) => false,
+                _ => v,
+            };
+            format!("valid={}{}", p_bool(v), oracle(v == matches, "validity check wrong for bool/float kind"))
+        }
+        "NEW" => {
+            let c = message_config(t)?;
+            let sh = t.opt(|t| t.storage_header())?;
+            op_new(c, sh)
+        }
+        "ADDSH" => {
+            let m = t.message()?;
+            let s: u32 = t.num()?;
+            let us: u32 = t.num()?;
+            op_addsh(m, s, us)
         }
         _ => return Err(format!("unknown op {}", op)),
     };
